@@ -59,7 +59,7 @@ impl Property for C11 {
         ]
     }
     fn pbt(&self, tier: Tier) -> PbtCfg {
-        PbtCfg { cases: tier.pick(120_000, 4_000_000), max_len: tier.pick(2000, 6000), shrink_ms: 120_000 }
+        PbtCfg { cases: tier.pick(120_000, 2_000_000), max_len: tier.pick(2000, 6000), shrink_ms: 120_000 }
     }
     fn required_labels(&self) -> Vec<&'static str> {
         vec!["broadcast", "broadcast_except", "broadcast_with_dead_client", "late_join", "stalled_stream", "hostile_client", "fault_free_case", "healed_complete", "impolite_broadcast"]
